@@ -177,7 +177,7 @@ func TestC13(t *testing.T) {
 			if c == nil {
 				return nil
 			}
-			if p != nil && !g.LocalNames && !c.Contraction {
+			if p != nil && c.Origin == "g-prog" && !g.LocalNames && !c.Contraction {
 				// (not with contraction: duplicating a process needs the polarities of its free names,
 				// which only the typechecker provides)
 				// the dialect of the maintainers' run-time tests: cut bodies written out inline, the
